@@ -174,7 +174,12 @@ Definition mon_C10_step (step : nat) (o : val) (prev cur : obs) : list val :=
               ++
               (if forallb (fun b => (N.ltb (ctr prev 3 ch) (b_seq b) && N.leb (b_seq b) (ctr cur 3 ch)
                                      && Nat.eqb (length (filter (fun b' => N.eqb (b_seq b') (b_seq b)) nb)) 1)%bool) nb then []
-               else [viol k_c10_seq step [VB ch; vNat (ctr prev 3 ch); vNat (ctr cur 3 ch); VL (map (fun b => vNat (b_seq b)) nb)]]))
+               else [viol k_c10_seq step [VB ch; vNat (ctr prev 3 ch); vNat (ctr cur 3 ch); VL (map (fun b => vNat (b_seq b)) nb)]])
+              ++
+              (* gap-free: the chain's sequence counter advances by exactly the number of outgoing transactions created in
+                 this step (new batches + new signer sets; nothing else is created in these histories) *)
+              (if N.eqb (ctr cur 3 ch) (ctr prev 3 ch + N.of_nat k + (ctr cur 6 ch - ctr prev 6 ch)) then []
+               else [viol k_c10_seq step [VB ch; vNat (ctr prev 3 ch); vNat (ctr cur 3 ch); VI (Z.of_nat k); vNat (ctr cur 6 ch - ctr prev 6 ch)]]))
            (fold_left (fun acc (x : Z * bytes * N) => if existsb (beqb (snd (fst x))) acc then acc else acc ++ [snd (fst x)])
                       (ob_ctr prev ++ ob_ctr cur) (chains_of news))
   ++
@@ -340,6 +345,8 @@ Definition k_c13_minter := str [67;49;51;47;109;105;110;116;101;114;45;98;97;116
 Definition k_c13_notremoved := str [67;49;51;47;101;120;101;99;117;116;101;100;45;110;111;116;45;114;101;109;111;118;101;100].               (* C13/executed-not-removed *)
 Definition k_c13_lost := str [67;49;51;47;116;114;97;110;115;102;101;114;115;45;110;111;116;45;114;101;116;117;114;110;101;100].             (* C13/transfers-not-returned *)
 
+Definition k_c13_older := str [67;49;51;47;111;108;100;101;114;45;98;97;116;99;104;45;110;111;116;45;114;101;108;101;97;115;101;100]. (* C13/older-batch-not-released *)
+
 Definition exec_targets (t : track) : list (bytes * bytes * N) :=
   flat_map (fun ce : bytes * event => match snd ce with
                                       | EvBatchExecuted _ coin bn _ _ _ _ => [(fst ce, coin, bn)]
@@ -371,6 +378,13 @@ Definition mon_C13_step (step : nat) (o : val) (prev cur : obs) (t : track) : li
                 else [viol k_c13_alive step [VB (b_chain b); VB (b_ext b); vNat (b_nonce b)]]) gone
     ++ flat_map (fun b => if is_target b && existsb (batch_same b) (ob_batches cur)
                           then [viol k_c13_notremoved step [VB (b_chain b); VB (b_ext b); vNat (b_nonce b)]] else []) (ob_batches prev)
+    (* an execution that was applied (its batch is gone) releases every older batch of the same token on ethereum / bsc *)
+    ++ flat_map (fun b => if negb (beqb (b_chain b) b_minter) && older b && existsb (batch_same b) (ob_batches cur)
+                             && existsb (fun x : bytes * bytes * N =>
+                                           beqb (fst (fst x)) (b_chain b) && beqb (snd (fst x)) (b_ext b) && N.ltb (b_nonce b) (snd x)
+                                           && negb (existsb (fun b2 => beqb (b_chain b2) (b_chain b) && beqb (b_ext b2) (b_ext b) && N.eqb (b_nonce b2) (snd x)) (ob_batches cur)))
+                                        targets
+                          then [viol k_c13_older step [VB (b_chain b); VB (b_ext b); vNat (b_nonce b)]] else []) (ob_batches prev)
   else
     flat_map (fun b => [viol k_c13_alive step [VB (b_chain b); VB (b_ext b); vNat (b_nonce b)]]) gone.
 
@@ -455,7 +469,7 @@ Definition mon_C11_step (step : nat) (o : val) (prev cur : obs) (t : track) : li
                     else [viol k_c11_credit step [VI amount]]
           end
         else []
-    | [(chain, EvTransfer _ coin amount fee _ rchain _ _ _ recv_hub)] =>
+    | [(chain, EvTransfer _ coin amount fee tsender rchain treceiver _ _ recv_hub)] =>
         if beqb rchain b_hub && same_lists enc_ste (ob_pool prev) (ob_pool cur) && same_lists enc_batch (ob_batches prev) (ob_batches cur) then
           match ext_to_token (tr_tokens t) chain coin with
           | Some ti =>
@@ -466,6 +480,25 @@ Definition mon_C11_step (step : nat) (o : val) (prev cur : obs) (t : track) : li
                 if (dsup =? c) && (dbal =? c) then [] else [viol k_c11_credit step [VI amount; VI c; VI dsup; VI dbal]]
               else if (dsup =? 0) && (dbal =? 0) then [] else [viol k_c11_credit step [VI amount; VI 0; VI dsup; VI dbal]]
           | None => []
+          end
+        else if negb (beqb rchain b_hub) && same_lists enc_batch (ob_batches prev) (ob_batches cur) then
+          (* a transfer to another chain that was applied (exactly one new entry on the destination chain): its
+             amount, fee and commission are the source-chain values converted through hub units, the commission taken
+             at the holder rate of (sender, receiver), the fee taken out of the rest *)
+          let news := filter (fun e => beqb (s_chain e) rchain && negb (in_entries e (all_entries prev))) (ob_pool cur) in
+          match news, ext_to_token (tr_tokens t) chain coin with
+          | [e], Some sti =>
+              match denom_to_token (tr_tokens t) rchain (ti_denom sti) with
+              | Some rti =>
+                  let ca := to_hub (ti_dec sti) amount in
+                  let cf := to_hub (ti_dec sti) fee in
+                  let comm := commission_of (track_holder_rate t [tsender; treceiver] (ti_comm rti)) ca in
+                  if (s_token e =? to_ext (ti_dec rti) (ca - comm - cf)) && (s_fee e =? to_ext (ti_dec rti) cf)
+                     && (s_comm e =? to_ext (ti_dec rti) comm) then []
+                  else [viol k_c11_sched step [VI amount; VI fee; VI (s_token e); VI (s_fee e); VI (s_comm e)]]
+              | None => []
+              end
+          | _, _ => []
           end
         else []
     | _ => []
@@ -511,7 +544,9 @@ Definition mon_C19_step (step : nat) (o : val) (prev cur : obs) (t : track) : li
                 | _ => []
                 end) (tr_pending t)
     ++
-    match tr_pending t with
+    (* a block with exactly one execution (whatever else was attested in it): payouts tagged as commission / fee
+       refund come from that execution only *)
+    match filter (fun ce : bytes * event => match snd ce with EvBatchExecuted _ _ _ _ _ _ _ => true | _ => false end) (tr_pending t) with
     | [(chain, EvBatchExecuted _ coin bn _ _ _ payer)] =>
         match find (fun b => beqb (b_chain b) chain && beqb (b_ext b) coin && N.eqb (b_nonce b) bn) (ob_batches prev),
               ext_to_token (tr_tokens t) chain coin with
